@@ -52,10 +52,32 @@ def writer_skeletons(ctx, repo):
     """Skeleton of every line GeckoShell.version_strings writes -> list of skeletons"""
     vs = repo.method("GeckoShell", "version_strings")
     ret = [n for n in ast.walk(vs.node) if isinstance(n, ast.Return)]
-    if len(ret) != 1 or not isinstance(ret[0].value, ast.List):
-        raise AnalysisError("GeckoShell.version_strings does not return a list literal")
+    if len(ret) != 1:
+        raise AnalysisError("GeckoShell.version_strings has several return statements - idiom not supported by C19.R1")
+    from ..strtemplate import resolve
+    lst = ret[0].value
+    memo = None
+    if not isinstance(lst, ast.List):
+        if isinstance(lst, ast.Attribute) and isinstance(lst.value, ast.Name) and lst.value.id == "self":
+            memo = lst.attr
+        lst = resolve(repo, vs, ret[0].value)
+    if not isinstance(lst, ast.List):
+        raise AnalysisError("GeckoShell.version_strings does not return a list of f-strings (directly or through a local / attribute) - idiom not supported by C19.R1")
+    if memo is not None:
+        # the header is kept in an attribute: it describes the spa being snapshotted only if the cache is dropped
+        # wherever the shell switches to another facade
+        cls = vs.cls
+        stale = []
+        for m in cls.methods.values():
+            sets_facade = [n for n in ast.walk(m.node) if isinstance(n, ast.Attribute) and isinstance(n.ctx, ast.Store) and n.attr == "facade" and isinstance(n.value, ast.Name) and n.value.id == "self"]
+            clears = [n for n in ast.walk(m.node) if isinstance(n, ast.Attribute) and isinstance(n.ctx, ast.Store) and n.attr == memo and m is not vs]
+            if sets_facade and not clears and m.name != "__init__":
+                stale.append(m.qual)
+        ctx.ob("R1", "version_strings::describes-the-live-spa", not stale,
+               f"GeckoShell.version_strings returns the cached `self.{memo}`; {stale} switch(es) `self.facade` without dropping the cache, so a snapshot of the next spa is written with the previous spa's header (pack type, firmware, config/log versions) above its own block",
+               vs.loc)
     out = []
-    for e in ret[0].value.elts:
+    for e in lst.elts:
         if not isinstance(e, ast.JoinedStr):
             raise AnalysisError("version string is not an f-string")
         sk = []
